@@ -17,9 +17,10 @@ use crate::Runner;
 use crate::world::{Cfg, ClientSide, ServerSide, Step, World};
 use iceoryx2::prelude::*;
 use std::collections::BTreeMap;
-use std::sync::Arc;
 use vlib::rng::Rng;
-use vlib::sched::{self, Dfs, LogEntry, Outcome, RandomWalk, RunConfig, Strategy};
+use crate::lsched;
+use iceoryx2_pal_concurrency_sync::verif_hook::Site;
+use vlib::sched::{Dfs, RandomWalk, Strategy};
 use vlib::{Value, json};
 
 pub struct ConcProg {
@@ -32,6 +33,11 @@ pub struct ConcProg {
     pub bound: usize,
     pub runs: u64,
     pub switch: u64,
+    /// chunk counts of the configuration as read from the running code by `params` (0: read them again)
+    pub nreq: u64,
+    pub nresp: u64,
+    /// mode "replay": the schedule of a recorded execution ("0x12,1x40,0x7": thread x number of steps)
+    pub sched: String,
 }
 
 impl ConcProg {
@@ -47,6 +53,9 @@ impl ConcProg {
             bound: v["bound"].as_u64().unwrap_or(1) as usize,
             runs: v["runs"].as_u64().unwrap_or(400),
             switch: v["switch"].as_u64().unwrap_or(25),
+            nreq: v["nreq"].as_u64().unwrap_or(0),
+            nresp: v["nresp"].as_u64().unwrap_or(0),
+            sched: v["sched"].as_str().unwrap_or("").to_string(),
         }
     }
 }
@@ -81,11 +90,23 @@ impl<T> SendPtr<T> {
     }
 }
 
-fn filter() -> sched::SiteFilter {
-    Arc::new(|s: &sched::Site| {
-        let f = s.file;
-        f.contains("zero_copy_connection/") || f.contains("lock-free/src/spsc/")
-    })
+/// yield points: the atomics of the memory the two ports share (channel states, submission / completion queues,
+/// used-chunk lists of the zero-copy connections)
+fn filter(s: &Site) -> bool {
+    let f = s.file;
+    f.contains("zero_copy_connection/") || f.contains("lock-free/src/spsc/")
+}
+
+fn unrle(s: &str) -> Vec<usize> {
+    let mut out = vec![];
+    for part in s.split(',') {
+        if let Some((t, n)) = part.split_once('x') {
+            if let (Ok(t), Ok(n)) = (t.trim().parse::<usize>(), n.trim().parse::<usize>()) {
+                out.extend(std::iter::repeat_n(t, n));
+            }
+        }
+    }
+    out
 }
 
 fn rle(s: &[usize]) -> String {
@@ -110,18 +131,18 @@ macro_rules! thread_body {
         Box::new(move || {
             let side = unsafe { $ptr.get() };
             for st in $steps {
-                sched::yield_api(&st.a);
+                lsched::yield_api();
                 let mut called = false;
                 let r = side.exec_step(None, &st, &mut |rec| {
                     called = true;
-                    sched::log_api(rec.to_json_kind("call", $tid));
+                    lsched::log_api(rec.to_json_kind("call", $tid));
                 });
                 match r {
                     Some(mut rec) => {
                         rec.bad = side.bad_or_99();
                         rec.x = 0;
                         side.count(&rec);
-                        sched::log_api(rec.to_json_kind("ret", $tid));
+                        lsched::log_api(rec.to_json_kind("ret", $tid));
                     }
                     None => {
                         if called {
@@ -129,27 +150,40 @@ macro_rules! thread_body {
                             let mut rec = crate::world::Rec::of(&st);
                             rec.a = "Skip".into();
                             rec.r = format!("not-applicable:{}", st.a);
-                            sched::log_api(rec.to_json_kind("ret", $tid));
+                            lsched::log_api(rec.to_json_kind("ret", $tid));
                         }
                     }
                 }
             }
-        }) as sched::Body
+        }) as lsched::Body
     };
 }
 
 impl Runner {
-    fn conc_once<S: Service + 'static>(&mut self, p: &ConcProg, strat: &mut dyn Strategy, stats: &mut ConcStats) {
-        self.run += 1;
+    fn new_world<S: Service + 'static>(&mut self, p: &ConcProg) -> World<S> {
         let (config, prefix) = self.config();
-        let mut w = match World::<S>::new(&p.cfg, &config, &format!("verif/reqres/{prefix}")) {
-            Ok(w) => w,
+        let probe = p.nreq == 0 || p.nresp == 0;
+        static WORLDS: std::sync::atomic::AtomicU64 = std::sync::atomic::AtomicU64::new(0);
+        let k = WORLDS.fetch_add(1, std::sync::atomic::Ordering::Relaxed);
+        match World::<S>::new_opt(&p.cfg, &config, &format!("verif/reqres/{prefix}w{k}"), probe) {
+            Ok(mut w) => {
+                if !probe {
+                    w.nreq = p.nreq;
+                    w.nresp = p.nresp;
+                }
+                w
+            }
             Err(e) => {
                 eprintln!("cannot set up world: {e}");
                 std::process::exit(3);
             }
-        };
-        let mut rr = self.reset_record(&w);
+        }
+    }
+
+    /// one execution of the program under the given strategy, on fresh ports of the (reused) service of w
+    fn conc_once<S: Service + 'static>(&mut self, w: &mut World<S>, p: &ConcProg, strat: &mut dyn Strategy, stats: &mut ConcStats) {
+        self.run += 1;
+        let mut rr = self.reset_record(w);
         rr["conc"] = json!(1);
         rr["prog"] = json!(p.name);
         self.out.emit(&rr);
@@ -158,32 +192,19 @@ impl Runner {
         for st in &p.pre {
             let mut rec = w.exec(st);
             rec.x = 0;
-            self.emit(&rec);
+            if rec.a != "Skip" {
+                self.emit(&rec);
+            }
         }
         let pc = SendPtr(&mut w.cs as *mut ClientSide<S>);
         let ps = SendPtr(&mut w.ss as *mut ServerSide<S>);
         let (t0, t1) = (p.t[0].clone(), p.t[1].clone());
-        let bodies: Vec<sched::Body> = vec![thread_body!(pc, t0, 0), thread_body!(ps, t1, 1)];
-        let show_sites = std::env::var("VERIF_CONC_SITES").is_ok();
-        let cfg = RunConfig { ranges: vec![], max_steps: 100_000, record_atoms: show_sites, yield_after: false, site_filter: Some(filter()) };
-        let res = sched::run(cfg, bodies, strat);
-        if show_sites {
-            for e in &res.log {
-                match e {
-                    LogEntry::Atom { tid, site, rd, wr, ok } => eprintln!("  t{tid} {} rd={rd} wr={wr} ok={ok}", site.to_json()),
-                    LogEntry::Api { tid, ev } => eprintln!("t{tid} {} {} {}", ev["k"], ev["a"], ev["r"]),
-                }
-            }
-        }
+        let bodies: Vec<lsched::Body> = vec![thread_body!(pc, t0, 0), thread_body!(ps, t1, 1)];
+        w.ss.conn_in_receive = false;
+        let res = lsched::run(filter, 100_000, bodies, strat);
+        w.ss.conn_in_receive = true;
         // the call / ret records in the total order of the scheduler
-        let mut evs: Vec<(usize, Value)> = res
-            .log
-            .iter()
-            .filter_map(|e| match e {
-                LogEntry::Api { tid, ev } => Some((*tid, ev.clone())),
-                _ => None,
-            })
-            .collect();
+        let mut evs: Vec<(usize, Value)> = res.log.clone();
         let n = evs.len();
         let mut overlapped = false;
         for i in 0..n {
@@ -220,26 +241,28 @@ impl Runner {
             self.out.emit(e);
             self.events += 1;
         }
-        let completed = res.outcome == Outcome::Completed && res.panics.is_empty();
+        let completed = res.completed && res.panics.is_empty();
         stats.executions += 1;
         if overlapped {
             stats.overlapped += 1;
         }
         if !completed {
             stats.anomalies += 1;
-            eprintln!("anomaly in {}: {:?} {:?}", p.name, res.outcome, res.panics);
+            eprintln!("anomaly in {}: completed={} {:?}", p.name, res.completed, res.panics);
         }
         stats.max_steps = stats.max_steps.max(res.schedule.len() as u64);
         if completed {
             for st in &p.post {
                 let mut rec = w.exec(st);
                 rec.x = 0;
-                self.emit(&rec);
+                if rec.a != "Skip" {
+                    self.emit(&rec);
+                }
             }
         } else {
             w.cs.poisoned = true;
         }
-        // end of run
+        // end of run: everything but node and service is dropped
         for (k, v) in &w.counts() {
             *self.counts.entry(k.clone()).or_insert(0) += v;
         }
@@ -247,9 +270,14 @@ impl Runner {
         if poisoned {
             self.panics += 1;
         }
-        let ok = w.teardown();
+        let ok = w.recycle();
         if !ok && !poisoned {
             self.teardown_failures += 1;
+        }
+        if !ok {
+            // leaked / half destroyed ports stay registered in the service: continue on a new one
+            let old = std::mem::replace(w, self.new_world::<S>(p));
+            std::mem::forget(old);
         }
         self.out.emit(&json!({"k": "end", "run": self.run,
             "teardown": if ok { "ok" } else if poisoned { "leaked-after-panic" } else { "PANIC" },
@@ -258,6 +286,8 @@ impl Runner {
     }
 
     pub fn run_conc<S: Service + 'static>(&mut self, p: &ConcProg, rng: &mut Rng, stats: &mut ConcStats) {
+        let mut w = self.new_world::<S>(p);
+        let w = &mut w;
         match p.mode.as_str() {
             "dfs" => {
                 let mut dfs = Dfs::new(p.bound);
@@ -266,7 +296,7 @@ impl Runner {
                         stats.exhausted += 1;
                         break;
                     }
-                    self.conc_once::<S>(p, &mut dfs, stats);
+                    self.conc_once::<S>(w, p, &mut dfs, stats);
                     if dfs.runs >= p.runs {
                         stats.truncated += 1;
                         break;
@@ -276,7 +306,14 @@ impl Runner {
             "random" => {
                 for _ in 0..p.runs {
                     let mut s = RandomWalk { rng: Rng::new(rng.next()), switch_percent: p.switch };
-                    self.conc_once::<S>(p, &mut s, stats);
+                    self.conc_once::<S>(w, p, &mut s, stats);
+                }
+            }
+            "replay" => {
+                let mut s = vlib::sched::Replay::new(unrle(&p.sched));
+                self.conc_once::<S>(w, p, &mut s, stats);
+                if s.deviations > 0 {
+                    eprintln!("replay deviated from the recorded schedule {} times", s.deviations);
                 }
             }
             m => {
